@@ -101,6 +101,7 @@ def uxCallP : P UxCall := do
   | 9 => do let e ← elemP; let c ← countsP; return .subsetBox e c
   | 10 => do let c ← countsP; return .crossSectionLat c
   | 11 => do let b ← bool; let c ← countsP; return .getDual b c
+  | 12 => do let c ← countsP; return .getDualR c
   | _ => failure
 
 /-- names of the public calls of the model's table, in code order (compared by the harness with the
@@ -108,7 +109,7 @@ def uxCallP : P UxCall := do
 def uxCallNames : List String :=
   ["remap.nearest_neighbor", "remap.inverse_distance_weighted", "topological_*", "gradient", "difference",
    "integrate", "isel", "subset.nearest_neighbor", "subset.bounding_circle", "subset.bounding_box",
-   "cross_section.constant_latitude", "get_dual"]
+   "cross_section.constant_latitude", "get_dual", "get_dual(repaired)"]
 
 def opP : P Op := do
   match (← nat) with
